@@ -25,6 +25,8 @@ type HCase struct {
 	Model bool     `json:"model"` // serve query results as models (IDToRIDModelTransformer) instead of collections
 	Held  []string `json:"held"`  // resource ids (with ?query for query resources) the client holds
 	Ops   []Op     `json:"ops"`   // mutations
+	// BogusLast: AffectedResources ends its list with a resource id that no handler serves.
+	BogusLast bool `json:"bogusLast,omitempty"`
 }
 
 func (c HCase) String() string { b, _ := json.Marshal(c); return string(b) }
@@ -107,6 +109,11 @@ func runHandler(c HCase) (msg string, nontrivial bool) {
 				out = append(out, k)
 			}
 			sort.Strings(out)
+			if c.BogusLast {
+				// a resource id no handler serves, after the real ones: the earlier ones must
+				// have been dealt with all the same
+				out = append(out, "svc.nosuch.x")
+			}
 			return out
 		}})
 	// query resource
@@ -275,7 +282,7 @@ func TestC14Handler(t *testing.T) {
 	ev := evid.For("C14")
 	ev.SetRule("handler-level cases: a service with store.QueryHandler resources over a real badgerstore QueryStore (ordinary resource, ordinary resource with a path parameter and an AffectedResources callback, query resource; served as collections or as models through the IDToRID transformers), a client holding 1-4 results, 1-25 mutations; after every mutation + Flush the client applies the resets / events / query-event responses it received and must equal a fresh get; non-trivial when some mutation changed or touched a held result")
 	rapid.Check(t, func(rt *rapid.T) {
-		c := HCase{Model: rapid.Bool().Draw(rt, "model")}
+		c := HCase{Model: rapid.Bool().Draw(rt, "model"), BogusLast: rapid.IntRange(0, 3).Draw(rt, "bogus") == 0}
 		c.Cfg.Prefix = rapid.SampledFrom([]string{"", "pfx"}).Draw(rt, "prefix")
 		c.Cfg.SlowKey = rapid.SampledFrom([]int{0, 0, 1}).Draw(rt, "slow")
 		c.Held = rapid.SliceOfNDistinct(rapid.SampledFrom([]string{"svc.all", "svc.by.a", "svc.by.b", "svc.by.ab", "svc.search?prefix=a", "svc.search?prefix=", "svc.search?prefix=ab", "svc.search"}), 1, 4, rapid.ID[string]).Draw(rt, "held")
